@@ -18,7 +18,7 @@ from harness.docs import C1
 def worker(kp, job):
     seed, idx = job
     rng = random.Random(seed * 141650939 + idx)
-    g = docs.gen_doc(rng, kern_only=True, core=True, max_spines=2, measures=rng.randint(2, 6), comments=(idx % 3 == 0),
+    g = docs.gen_doc(rng, kern_only=True, core=True, max_spines=2, measures=rng.randint(2, 6), comments=(idx % 3 == 0), blanks=0,
                      opening_barline=(idx % 4 != 0))
     g.nl = '\n'
     g.final_nl = False
@@ -45,10 +45,11 @@ def worker(kp, job):
             frags.append(lines[prev:])
             if any(len(f) == 0 for f in frags):
                 continue
+            # fragments end with a line end or not, independently (the separator is inserted whatever the fragments end with)
             if sep == '\n':
-                ftexts = ['\n'.join(f) for f in frags]
+                ftexts = ['\n'.join(f) + ('\n' if rng.random() < 0.4 else '') for f in frags]
             else:
-                ftexts = ['\n'.join(f) + '\n' for f in frags]
+                ftexts = ['\n'.join(f) + '\n' for f in frags[:-1]] + ['\n'.join(frags[-1]) + ('\n' if rng.random() < 0.6 else '')]
             joined = sep.join([''] + ftexts) if False else ''.join(sep + f for f in ftexts)
             viol = []
             first_has_measure = any(l and not l.startswith('!!') and not l.startswith('**') and
@@ -108,7 +109,7 @@ def run(chk):
     full = chk.tier == 'thorough' or bool(b.drift) or not b.proof_ok
     n = core.budget(chk, full, 40, 300)
     chk.rule = ('generated **kern scores of C07\'s core domain (2-6 measures, with / without opening barline, comments) cut at '
-                'sets of barline positions (0..5 cuts, up to 4 sets per size) into 1..6 fragments, separators newline and empty; '
+                'sets of barline positions (0..5 cuts, up to 4 sets per size) into 1..6 fragments, separators newline and empty, fragments with and without a final line end; '
                 'non-trivial = distinct (fragments, separator)')
     results = engine.pmap(worker, [(chk.seed, i) for i in range(n)])
     engine.settle(chk, results, model)
